@@ -157,8 +157,33 @@ def run_window_history(chk, spec):
 RUNNERS = {"key_forms_sequence": c12.run_key_forms_sequence, "nested_apply": c12.run_nested_apply, "window": run_window, "window_history": run_window_history, "agg_chain": c12.run_agg_chain, "label_keys": c12.run_label_keys}
 RUNNERS["recompute"] = recompute.runner("C13")
 
+def run_label_value_columns(chk, spec):
+	"""several window calls in one process over aggregated columns whose labels compare equal without being the same (True, 1, 1.0 ...): each call's header is the
+	header aggregate gives for the same request - whatever labels earlier calls have seen"""
+	from fractions import Fraction
+	from decimal import Decimal
+	lab = {"1": 1, "True": True, "1.0": 1.0, "0": 0, "False": False, "0.0": 0.0, "Decimal(1)": Decimal(1), "Fraction(1)": Fraction(1), "2.5": 2.5, "Fraction(5, 2)": Fraction(5, 2)}
+	for x in spec["sequence"]:
+		t = Table([Vector(["a", "b", "a"], name="k"), Vector([1, 2, 3], name=lab[x])])
+		fn = spec["fn"]
+		w = call(lambda: t.window(over="k", **{fn + "_over": t.cols()[1]}))
+		a = call(lambda: t.aggregate(over="k", **{fn + "_over": t.cols()[1]}))
+		chk.judged("window-vs-aggregate", ("label-value-columns", x, tuple(spec["sequence"]), fn))
+		if not (w.ok and a.ok):
+			continue
+		if w.value.column_names() != a.value.column_names():
+			chk.fail("window's output equals aggregate's output joined back to the rows on the partition key", "window/header-differs-from-aggregate/look-alike-labels", f"{spec!r}: label {lab[x]!r}: window columns {w.value.column_names()!r}, aggregate columns {a.value.column_names()!r}")
+			return
+
+
+RUNNERS["label_value_columns"] = run_label_value_columns
+
 
 def run(chk):
+	import itertools as _it
+	for seq in list(_it.permutations(["1", "True", "1.0"])) + list(_it.permutations(["0", "False", "0.0"])) + [("Decimal(1)", "1"), ("1", "Fraction(1)"), ("2.5", "Fraction(5, 2)"), ("Fraction(5, 2)", "2.5")]:
+		for fn in ("sum", "max"):
+			chk.case("label_value_columns", {"sequence": list(seq), "fn": fn}, "label-value-columns")
 	c12.key_form_cases(chk, "window")
 	for spec in c12.directed_specs("window"):
 		chk.case("window", spec, "window-directed")
